@@ -65,6 +65,9 @@ P_C01_ErrorClass ==   \* the status names the first failing check, in the order 
 
 \* --- C03 ------------------------------------------------------------------------------------
 P_C03_RootOnly == (IsObs /\ o.attributed /\ o.dest \in {"ws", "ga"} /\ ~o.elevated) => (~o.relayed /\ o.strayBytes = 0)
+\* a connection that has no record of its own has no caller that could be "running elevated": whatever record an earlier
+\* connection from the same source port may have left behind, nothing it sends reaches the WireServer or the HostGAPlugin
+P_C03_NoRecordNoRelay == (IsObs /\ ~o.attributed) => (~o.relayed /\ o.strayBytes = 0)
 P_C03_NoSelfProxy == (IsObs /\ o.attributed /\ o.dest = "self") => (~o.relayed /\ (~o.prov /\ ~o.trav /\ ~Over => o.status = 403))
 
 \* --- C05 ------------------------------------------------------------------------------------
